@@ -170,6 +170,21 @@ M = [
  ('m_c27_queued', 'C27', 'cylc/flow/task_proxy.py',
   "        reload_successor.state.is_queued = self.state.is_queued\n",
   ""),
+ ('m_c08_counter', 'C08', 'cylc/flow/flow_mgr.py',
+  "        self.counter = self.db_mgr.pri_dao.select_workflow_flows_max_flow_num()\n        self.flows = self.db_mgr.pri_dao.select_workflow_flows(flow_nums)",
+  "        self.flows = self.db_mgr.pri_dao.select_workflow_flows(flow_nums)\n        self.counter = max(self.flows, default=0)"),
+ ('m_c08_carry', 'C08', 'cylc/flow/task_pool.py',
+  "                c_task = self.spawn_task(c_name, c_point, itask.flow_nums)\n\n            tasks: List[TaskProxy]",
+  "                c_task = self.spawn_task(c_name, c_point, {min(itask.flow_nums)})\n\n            tasks: List[TaskProxy]"),
+ ('m_c08_merge', 'C08', 'cylc/flow/task_pool.py',
+  "                self.merge_flows(c_task, itask.flow_nums)\n            elif c_task is None and itask.flow_nums:",
+  "                pass\n            elif c_task is None and itask.flow_nums:"),
+ ('m_c08_history', 'C08', 'cylc/flow/task_pool.py',
+  "            if set.intersection(flow_nums, old_fnums):",
+  "            if len(flow_nums) > 1 and set.intersection(flow_nums, old_fnums):"),
+ ('m_c08_mergesubset', 'C08', 'cylc/flow/task_pool.py',
+  "        if not flow_nums or flow_nums.issubset(itask.flow_nums):",
+  "        if not flow_nums or (flow_nums == itask.flow_nums):"),
  ('m_c09_started_back', 'C09', 'cylc/flow/task_events_mgr.py',
   "            if flag == self.FLAG_RECEIVED and itask.state.is_gt(\n                TASK_STATUS_RUNNING\n            ):\n                # Already running.\n                return True",
   "            if False:\n                # Already running.\n                return True"),
